@@ -381,6 +381,12 @@ class OriginConn:
                 self.h2.feed(tr, data)
                 return
         if self.closing:
+            if self.parser.state != "head" or self.parser.buf:
+                # remainder of the request that was answered early: keep parsing, nothing more to say
+                for ev, arg in self.parser.feed(data):
+                    if ev == "head":
+                        o.anomaly("request-after-close", tr=tr.id, n=len(data))
+                return
             o.anomaly("request-after-close", tr=tr.id, n=len(data))
             return
         if self.parser.state == "head" and not self.parser.buf and data:
